@@ -3,6 +3,7 @@ the real manif (C++ harness built from the current /repo) answer the same reques
 response streams are compared value by value, bit for bit (±0 identified, all NaNs identified).
 """
 import collections
+import math
 import random
 import sys
 
@@ -108,6 +109,71 @@ def make_points(exe, r, group, count, radius, dbg=True, lin_only=("zero", "unit"
             raise RuntimeError("pre-stage rplus failed: " + o)
         pts.append([gen.of_hex(x) for x in t[1:]])
     return X, pts, tags
+
+
+def _angle(r):
+    k = r.choice(["strata", "periods", "euler"])
+    if k == "strata":
+        return gen.pick(r, gen.ANGLE_STRATA)[1] * r.choice([-1.0, 1.0])
+    if k == "periods":
+        return r.uniform(-1000.0, 1000.0)
+    return r.choice([0.0, math.pi / 2, -math.pi / 2, math.pi, -math.pi, math.pi / 2 - 1e-9, 1.5707963267948966, 3.0, -3.0])
+
+
+def _rotmat(r):
+    """a 3x3 rotation matrix (row-major) from a random unit quaternion; trace <= 0 cases included"""
+    q, tags = gen.element(r, "SO3", norm="exact")
+    x, y, z, w = q
+    return [1 - 2 * (y * y + z * z), 2 * (x * y - w * z), 2 * (x * z + w * y),
+            2 * (x * y + w * z), 1 - 2 * (x * x + z * z), 2 * (y * z - w * x),
+            2 * (x * z - w * y), 2 * (y * z + w * x), 1 - 2 * (x * x + y * y)], tags
+
+
+def ctor_requests(r, group, n, dbg):
+    """constructors, setters, accessors, normalize; norms on both sides of the acceptance threshold"""
+    out = []
+    G = gen.GROUPS[group]
+    for _ in range(n):
+        X, tags = gen.element(r, group, norm="any")
+        out.append((gen.req(dbg, "o", group, "make", 0, X), ["make"] + tags))
+        if group not in NO_ROTATION:
+            out.append((gen.req(dbg, "o", group, "normalize", 0, X), ["normalize"] + tags))
+        if group in ("SO2", "SE2", "SO3", "SE3"):
+            Xv, tv = gen.element(r, group, norm="valid")
+            out.append((gen.req(dbg, "o", group, "accessors", 0, Xv), ["accessors"] + tv))
+        lin = lambda k: [gen.pick(r, gen.LIN_STRATA)[1] * r.choice([-1, 1]) for _ in range(k)]
+        if group == "SO2":
+            a = _angle(r)
+            out.append((gen.req(dbg, "o", group, "ctor_angle", 0, [a]), ["ctor_angle", "a:%.3g" % a]))
+        elif group == "SE2":
+            a = _angle(r)
+            out.append((gen.req(dbg, "o", group, "ctor_xyt", 0, lin(2) + [a]), ["ctor_xyt", "a:%.3g" % a]))
+            c, s_ = math.cos(a), math.sin(a)
+            k = r.choice([1.0, 1.0, 1 + 1e-15, 1 + 1e-9])
+            t = lin(2)
+            out.append((gen.req(dbg, "o", group, "ctor_iso", 0, [c * k, -s_, t[0], s_, c * k, t[1], 0.0, 0.0, 1.0]), ["ctor_iso", "a:%.3g" % a, "k:%g" % k]))
+        elif group == "SO3":
+            rpy = [_angle(r), _angle(r), _angle(r)]
+            out.append((gen.req(dbg, "o", group, "ctor_rpy", 0, rpy), ["ctor_rpy"] + ["%.3g" % x for x in rpy]))
+            ax, dk = gen.direction(r, 3)
+            kk = r.choice([1.0, 1.0, 1.0, 1 + 1e-15, 1 + 5e-14, 2.0])
+            out.append((gen.req(dbg, "o", group, "ctor_aa", 0, [_angle(r)] + [x * kk for x in ax]), ["ctor_aa", dk, "axisnorm:%g" % kk]))
+            q, tq = gen.element(r, group, norm="any")
+            Xv, tv = gen.element(r, group, norm="valid")
+            out.append((gen.req(dbg, "o", group, "set_quat", 0, Xv + q), ["set_quat"] + tq))
+        elif group == "SE3":
+            rpy = [_angle(r), _angle(r), _angle(r)]
+            out.append((gen.req(dbg, "o", group, "ctor_xyzrpy", 0, lin(3) + rpy), ["ctor_xyzrpy"] + ["%.3g" % x for x in rpy]))
+            ax, dk = gen.direction(r, 3)
+            out.append((gen.req(dbg, "o", group, "ctor_taa", 0, lin(3) + [_angle(r)] + ax), ["ctor_taa", dk]))
+            q, tq = gen.element(r, "SO3", norm="any")
+            out.append((gen.req(dbg, "o", group, "ctor_tso3", 0, lin(3) + q), ["ctor_tso3"] + tq))
+            Rm, tr = _rotmat(r)
+            t = lin(3)
+            out.append((gen.req(dbg, "o", group, "ctor_iso", 0, Rm[0:3] + [t[0]] + Rm[3:6] + [t[1]] + Rm[6:9] + [t[2]] + [0.0, 0.0, 0.0, 1.0]), ["ctor_iso"] + tr))
+            Xv, tv = gen.element(r, group, norm="valid")
+            out.append((gen.req(dbg, "o", group, "set_quat", 0, Xv + q), ["set_quat"] + tq))
+    return out
 
 
 def approx_requests(exe, r, group, n, dbg):
